@@ -192,6 +192,10 @@ class WSGIContainer:
                 headers.append(("Content-Type", "text/html; charset=UTF-8"))
         if "server" not in header_set:
             headers.append(("Server", "TornadoServer/%s" % tornado.version))
+        if request.method == "HEAD":
+            # The response to HEAD has the headers of the corresponding GET
+            # (including its Content-Length) but never a body.
+            body = b""
 
         start_line = httputil.ResponseStartLine("HTTP/1.1", status_code, reason)
         header_obj = httputil.HTTPHeaders()
